@@ -518,7 +518,7 @@ def compare(ctx, cases, impl, index, model):
 
 
 def run(ctx):
-    n = 1600 if ctx.quick else 60000
+    n = 1600 if ctx.quick else 40000
     ctx.coverage["rule"] = ("cases from one seeded PRNG: 65% import sets x parameter draws (45% of them with the width aimed at a statement's "
                             "one-line length -2..+2), 5% Import.split on strings over 'ab.*_', 10% pyfill (60% at the auto/one-line boundaries), 5% set algebra, 15% token soup "
                             "for the parser; thorough adds all sets of <=3 imports over an 11-import alphabet x widths x hanging x align; "
@@ -532,7 +532,7 @@ def run(ctx):
     ctx.notes["trusted_base"] = ["CPython ast.parse as the reference reader of the printed text (oracle) and as the reference for the model parser"]
     cases = cm.load_corpus("C11") + gen_cases(ctx, n)
     if not ctx.quick:
-        cases += exhaustive_cases(ctx, 40000)
+        cases += exhaustive_cases(ctx, 20000)
     impl = cm.run_impl("c11", "impl_case", cases)
     exprs, index = model_exprs(cases)
     model = cm.coq_eval_json(REQ, exprs, shard=200)
